@@ -252,3 +252,33 @@ func HasParam(name string) bool  { load(); _, ok := rp.Params[name]; return ok }
 
 // Symbolic reports whether the harness runs inside the symbolic executor.
 func Symbolic() bool { return false }
+
+// ---- batch replay (native test driver) --------------------------------------
+
+var batch []replay
+
+// LoadBatch reads the JSON array of replay records named by $VX_BATCH.
+func LoadBatch() int {
+	p := os.Getenv("VX_BATCH")
+	if p == "" {
+		return 0
+	}
+	b, err := os.ReadFile(p)
+	if err != nil {
+		panic(err)
+	}
+	if err := json.Unmarshal(b, &batch); err != nil {
+		panic(err)
+	}
+	return len(batch)
+}
+
+// Select arms record i of the batch.
+func Select(i int) {
+	rp = batch[i]
+	loaded = true
+	pos = 0
+	Observed = nil
+	Failed = nil
+	Reached = nil
+}
